@@ -713,6 +713,8 @@ class Machine(object):
                 if not ok:
                     self.mismatches.append(("arity", name, len(refs), "1 or 2"))
                     raise B09RuntimeError(56, "parameter error calling inkey with %d arguments" % len(refs))
+            if name in self.lib and name not in RESULT_STUBS and not getattr(self, "_in_shadow", False):
+                self._shadow_run(frame, name, s)
             kind = RESULT_STUBS.get(name)
             if kind and refs and isinstance(refs[-1], Cell):
                 t = self.tape
@@ -731,6 +733,64 @@ class Machine(object):
                 self.events.append(("run", name, tuple(vals)))
             return
         raise B09RuntimeError(43, "unknown procedure %s" % s.name)
+
+    def _shadow_run(self, frame, name, s):
+        """A device procedure is recorded, not executed - but variables are passed by reference, so what it does to its
+        parameters matters to the caller.  Its body is run once on COPIES of the arguments (system modules stubbed, events and
+        counters restored afterwards); a user variable whose copy comes back changed is reported as clobbered."""
+        import copy
+
+        gen = ("pid", "display", "play", "erno", "errnum")
+        objs = []
+        for a in s.args:
+            obj = None
+            if a[0] == "ref" and not (a[1] == "errnum" and a[1] not in frame.vars):
+                try:
+                    obj = self.resolve(frame, a)
+                except B09RuntimeError:
+                    return
+            objs.append(obj)
+        watch = [(i, o) for i, o in enumerate(objs) if isinstance(o, Cell) and o.init and not (
+            o.name.lower() in gen or o.name.lower().startswith(("tmp_", "joy")))]
+        if not watch:
+            return
+        tf = Frame(frame.proc, self)
+        tf.types, tf.base = frame.types, frame.base
+        args2 = []
+        try:
+            for i, (a, o) in enumerate(zip(s.args, objs)):
+                if o is None:
+                    v = self.ev(frame, a)
+                    args2.append(("str", v) if isinstance(v, str) else (("bool", v) if isinstance(v, bool) else ("num", v)))
+                else:
+                    tf.vars["__a%d" % i] = copy.deepcopy(o)
+                    args2.append(("ref", "__a%d" % i, ()))
+        except (B09RuntimeError, RecursionError):
+            return
+        saved = (len(self.events), self.steps, len(self.mismatches), len(self.uninit), self.depth, getattr(self, "_frame", None), self.tape,
+                 self.rnd, self.budget)
+        self._in_shadow = True
+        self.budget = self.steps + 4000
+        ok = True
+        try:
+            self.call_proc(tf, name, args2, self.lib[name]["proc"])
+        except Exception:  # noqa: BLE001 - whatever stops the shadow run only means: nothing learned
+            ok = False
+        finally:
+            self._in_shadow = False
+            del self.events[saved[0]:]
+            del self.mismatches[saved[2]:]
+            del self.uninit[saved[3]:]
+            self.steps, self.depth, self._frame, self.tape, self.rnd, self.budget = saved[1], saved[4], saved[5], saved[6], saved[7], saved[8]
+        self.shadow_runs = getattr(self, "shadow_runs", 0) + 1
+        if not ok:
+            # (stopped early - typically a division by a display field that only the real start-up code fills in; what the
+            # procedure had written to its parameters by then it would have written all the same)
+            self.shadow_failed = getattr(self, "shadow_failed", 0) + 1
+        for i, o in watch:
+            c = tf.vars.get("__a%d" % i)
+            if isinstance(c, Cell) and (c.v != o.v):
+                self.mismatches.append(("clobbered-argument", name, o.name, o.v, c.v))
 
     # ------------------------------------------------------------ statements
     def goto(self, frame, label):
